@@ -213,7 +213,13 @@ impl Account {
 						&endpoint.name
 					);
 					self.info(&msg);
+					// If the account already exists, the server returns it as it is (RFC 8555,
+					// section 7.3): the contacts have to be updated on their own.
+					let contacts_changed = hash_contacts(&self.contacts) != acc_ep.contacts_hash;
 					register_account(endpoint, self).await?;
+					if contacts_changed {
+						update_account_contacts(endpoint, self).await?;
+					}
 					return Ok(());
 				}
 			}
